@@ -14,9 +14,17 @@ def claim(pid, technique, text, note, ref):
     CHECKS[pid] = (technique, text, note, ref)
 
 
-from .manifest_table import fill  # noqa: E402
+import importlib  # noqa: E402
+import glob  # noqa: E402
 
-fill(claim, NOT_APPLICABLE)
+for _f in sorted(glob.glob(os.path.join(VERIF, "vf", "checks", "c[0-9][0-9].py"))):
+    _pid = os.path.basename(_f)[:-3].upper()
+    _m = importlib.import_module("vf.checks." + _pid.lower())
+    _c = getattr(_m, "CLAIM", None)
+    if _c:
+        claim(_pid, _c["technique"], _c["text"], _c["note"], _c.get("ref", "DESIGN.md 4/" + _pid))
+    elif getattr(_m, "NOT_APPLICABLE", None):
+        NOT_APPLICABLE[_pid] = _m.NOT_APPLICABLE
 
 ALL = ["C%02d" % i for i in range(1, 21)]
 
